@@ -17,7 +17,8 @@ EXPLANATION = (
     'and evaluations after a failed one cannot hit the guard; (C06.3) exception re-wrapping along the recursion is '
     'additive: the caught message is embedded with str(), never with repr()/!r, whose escaping doubles per level.'
     ' (C06.1/C06.2) are decided on witness models with the recursion interpreted as written (self reference and 3-cycle reported on re-entry, diamond / repeated reference evaluate, evaluator unchanged after a failed and after a successful evaluation) - whatever the spelling of the guard (inline, helper, context manager); (C06.3) covers every function an exception travels through (evaluator, nodes, validate_args, thunks); (C06.4) a reference node resolves its address against the current context.'
-    ' (C06.5) witness workbooks with the real node classes and operator functions: cycles closed in either operand next to every kind of partner value, through function arguments and ranges, are reported by an exception whose text names the cycle after at most one entry per formula; diamonds over falsy precedents evaluate; doubling chains cost one evaluation per cell whatever the end value; failure reports grow additively.')
+    ' (C06.5) witness workbooks with the real node classes and operator functions: cycles closed in either operand next to every kind of partner value, through function arguments and ranges, are reported by an exception whose text names the cycle after at most one entry per formula; diamonds over falsy precedents evaluate; doubling chains cost one evaluation per cell whatever the end value; failure reports grow additively.'
+    ' (C06.5) also sheets whose titles are prefixes of one another, acyclic chains of 140 / 180 cells (also ending in an unknown function), cycles closed by an edit after the cells had been evaluated.')
 NOT_DECIDED = 'wall-clock promptness, memory limits'
 TRUSTED = ['identity-flow model of the recursion Evaluator.evaluate -> ASTNode.eval -> context.eval_cell -> evaluate', 'workbook scenarios: pandas storage of range arrays as row-major rows, numpy on Python numbers (IEEE results, 64-bit integer wrap), dateutil.parser.parse rejecting texts that are no dates, openpyxl address arithmetic, inspect.signature built from the FunctionDef']
 
